@@ -24,7 +24,9 @@ def make(family, rng, tier):
         scn["corruption"] = rng.choice(tracecmp.CORRUPTIONS)
         scn["target"] = rng.randrange(len(scn["pipes"]))
         scn["row"] = rng.randrange(6)
-        scn["junk"] = rng.choice(["URGENT", "query", "Batch", "cubic", "LINEAR3", "none", " "])
+        scn["junk"] = rng.choice(["URGENT", "query", "Batch", "cubic", "LINEAR3", "none", " ", "BATCH", "PIPELINE", "BATCH_PIPELINES",
+                                  "INTERACTIVE_PIPELINE", "1", "3", "HIGH", "Priority.QUERY", "linear", "linear5", "Const", "squared2",
+                                  "_const", "exponential"])
     return scn
 
 
